@@ -172,18 +172,17 @@ Definition pre_extend (a : loc) (d N : Z) (circ : bool) : bool :=
   (0 <? N) && wf_locb N a && disjoint_parts a && uniform_strand a && well_ordered circ a &&
   (0 <=? d) && (d <=? N + 1).
 
-(* recorded finding classes of Record.extend_location on a circular record with a multi-part input:
+(* recorded finding class of Record.extend_location on a circular record with a multi-part input:
    1 (extend_near_full) = the input itself runs over the origin and the two extensions reach each
-       other round the ring (span + 2*distance > N): result parts may overlap;
-   2 (extend_lower_lost) = the input does not run over the origin and both ends pass the record
-       edges and meet (the code's first branch): the lower extension may be dropped *)
-Definition extend_full_wrap (a : loc) (d N : Z) (circ : bool) : bool :=
-  circ && (start_pt a - d <? 0) && (start_pt a - d + N <=? end_pt a + d).
+       other round the ring (span + 2*distance > N): result parts may overlap.
+   The former class 2 (extend_lower_lost: input not over the origin, both ends pass the record
+   edges and meet, the lower extension was dropped) was repaired in the code: nothing is
+   suppressed for it any more. *)
 Definition extend_class (a : loc) (d N : Z) (circ : bool) : Z :=
   if negb (circ && is_compound a) then 0
   else if end_pt a <=? start_pt a
        then (if N <? end_pt a - start_pt a + N + 2 * d then 1 else 0)
-       else (if extend_full_wrap a d N circ then 2 else 0).
+       else 0.
 
 Definition verdict (pre : bool) (clause : Z) : list Z :=
   if negb pre then [2] else if clause =? 0 then [1] else if clause <? 0 then [2] else [0; clause].
@@ -217,10 +216,14 @@ Definition feature_lt (is_source : bool) (a b : loc) : res bool :=
   if pair_eqb ka kb && is_source then Ok true else Ok (pair_lt ka kb).
 Definition collection_lt (a b : loc) : res bool :=
   if contains a b && negb (contains b a) then Ok true else
+  (* the same the other way round (repair of finding F53 collection_lt_not_asymmetric) *)
+  if contains b a && negb (contains a b) then Ok false else
   do ka <- cmp_key (-1) a;
   do kb <- cmp_key (-1) b;
   Ok (pair_lt ka kb).
 Definition eResBool (r : res bool) : list Z := eRes eBool r.
+(* specification of the pair of answers (a < b, b < a) of CDSCollection.__lt__: never both *)
+Definition ok_asym (x y : bool) : bool := negb (x && y).
 
 Definition dWrap : dec (option Z) := dOpt dZ.
 
@@ -278,6 +281,11 @@ Definition run_C04 (fn : Z) (l : list Z) : list Z :=
              match dResLoc o with
              | Some out => verdict (pre_extend a d m c) (check_extend a d m c out)
              | None => bad_input end
+           | _ => bad_input end
+  (* payload = a ++ b ++ implementation output of a < b ++ implementation output of b < a *)
+  | 113 => match dPair dLoc dLoc l with
+           | Some ((a, b), [0; x; 0; y]) => verdict_b true (ok_asym (negb (x =? 0)) (negb (y =? 0)))
+           | Some ((a, b), _) => [2]
            | _ => bad_input end
   | 208 => match dPair (dPair dLoc dZ) (dPair dZ dBool) l with
            | Some ((a, d, (m, c)), _) => [extend_class a d m c]
